@@ -189,6 +189,10 @@ def h_map(ctx, extra=0):
     if st0 == "exc" or type(amb).__name__ != "AmbiguousInstanceType":
         ctx.fail("map-less decode is %r" % (amb,), key="map/mapless")
         return "mapless?"
+    call(C.from_frame, F.ForwardFrame(24, x ^ 0x020401))      # other events decoded in the meantime
+    call(C.from_frame, F.ForwardFrame(24, 0xBF8155))
+    ctx.prove(E.eq(amb.frame.as_integer, x), "an ambiguous event changed while other frames were decoded",
+              key="map/amb-changed")
     st1, again = call(amb.retry_decode, m)
     if st1 == "exc":
         ctx.fail("retry_decode raised %r" % (again,), key="map/retry-raised")
@@ -264,6 +268,10 @@ def h_map_history(ctx, steps):
         return ev, want
 
     def retry(amb, tag, now):
+        # other events are decoded in the meantime (another ambiguous one, an unknown one): the event kept
+        # for the retry must still be the event it was
+        call(C.from_frame, F.ForwardFrame(24, x ^ 0x020401))
+        call(C.from_frame, F.ForwardFrame(24, 0xBF8155))
         st, again = call(amb.retry_decode, m)
         if st == "exc":
             ctx.fail("retry_decode raised %r" % (again,), key=tag + "/retry-raised")
